@@ -1,3 +1,330 @@
+import Cello.Fail
 import Driver.Common
-/- driver for engine `fail` — stub, replaced when the engine is built -/
-def main (_args : List String) : IO Unit := IO.println "O not-implemented"
+/- driver for engine `fail` (C12): interprets the op file on the model `Cello.Fail` and prints, for every op, the
+   result (ok / raised:<exception> / ub) and the canonical dump of the object operated on — what harness/h_fail.c
+   prints for the real library. -/
+open Cello.Fail
+
+namespace FailDrv
+
+/-! #### tokens -/
+
+def isAlnum (c : Char) : Bool := c.isAlphanum
+
+def parseInt (s : String) : Option Int :=
+  if s.startsWith "-" then (s.drop 1).toString.toNat?.map (fun n => -(n : Int)) else s.toNat?.map (fun n => (n : Int))
+
+def inI64 (i : Int) : Bool := decide (-(2 ^ 63 : Int) ≤ i) && decide (i < (2 ^ 63 : Int))
+
+/-- value token: i<int> | s<alnum*> | p<int> | N -/
+def parseVal (t : String) : Option Val :=
+  if t = "N" then some .null
+  else match t.toList with
+    | 'i' :: r => (parseInt (String.ofList r)).bind (fun i => if inI64 i then some (.int i) else none)
+    | 'p' :: r => (parseInt (String.ofList r)).bind (fun i => if decide (-1000000 ≤ i) && decide (i ≤ 1000000) then some (.plain i) else none)
+    | 's' :: r => if r.all isAlnum && r.length ≤ 16 then some (.str r) else none
+    | _ => none
+
+def parseTy (t : String) : Option Ty :=
+  if t = "int" then some .int else if t = "str" then some .str else if t = "plain" then some .plain else none
+
+def parseAlloc (t : String) : Option AllocK :=
+  if t = "heap" then some .heap else if t = "stack" then some .stack else if t = "static" then some .static else none
+
+def parseId (t : String) : Option Nat := t.toNat?.bind (fun n => if n < 64 then some n else none)
+
+def parseVals : List String → Option (List Val)
+  | [] => some []
+  | t :: ts => do let v ← parseVal t; let vs ← parseVals ts; pure (v :: vs)
+
+def parsePairs : List String → Option (List (Val × Val))
+  | [] => some []
+  | [_] => none
+  | a :: b :: ts => do let k ← parseVal a; let v ← parseVal b; let r ← parsePairs ts; pure ((k, v) :: r)
+
+def parseFmt : List String → Option (List FmtItem)
+  | [] => some []
+  | t :: ts => do
+    let it ← (if t = "D" then some FmtItem.d else if t = "S" then some FmtItem.s else if t = "Q" then some FmtItem.q
+              else match t.toList with
+                | 'L' :: r => if r.all isAlnum && r.length ≥ 1 && r.length ≤ 16 then some (FmtItem.lit r) else none
+                | _ => none)
+    let r ← parseFmt ts
+    pure (it :: r)
+
+/-! #### dumps -/
+
+def showVal : Val → String
+  | .int i => s!"i{i}"
+  | .str s => "s" ++ String.ofList s
+  | .plain n => s!"p{n}"
+  | .null => "N"
+  | .nullstr => "s<NULL>"
+
+def showVals (vs : List Val) : String := ",".intercalate (vs.map showVal)
+
+def ltChars : List Char → List Char → Bool
+  | [], [] => false
+  | [], _ :: _ => true
+  | _ :: _, [] => false
+  | a :: as, b :: bs => if a.toNat < b.toNat then true else if a.toNat > b.toNat then false else ltChars as bs
+
+def keyLt : Val → Val → Bool
+  | .int a, .int b => decide (a < b)
+  | .str a, .str b => ltChars a b
+  | _, _ => false
+
+def insertSorted (p : Val × Val) : List (Val × Val) → List (Val × Val)
+  | [] => [p]
+  | q :: qs => if keyLt p.1 q.1 then p :: q :: qs else q :: insertSorted p qs
+
+def sortPairs (ps : List (Val × Val)) : List (Val × Val) := ps.foldl (fun acc p => insertSorted p acc) []
+
+def showPairs (ps : List (Val × Val)) : String :=
+  ",".intercalate ((sortPairs ps).map (fun p => showVal p.1 ++ ":" ++ showVal p.2))
+
+def dump : Obj → String
+  | .arr a => s!"A {a.ty.name} n={a.items.length} cap={a.nslots} [{showVals a.items}]"
+  | .lst l => s!"L {l.ty.name} n={l.items.length} [{showVals l.items}]"
+  | .tup t => s!"T {t.alloc.name} n={t.items.length} [{showVals t.items}]"
+  | .tab t => s!"H {t.kty.name} {t.vty.name} n={t.items.length} slots={t.nslots} " ++ "{" ++ showPairs t.items ++ "}"
+  | .tre t => s!"R {t.kty.name} {t.vty.name} n={t.items.length} " ++ "{" ++ showPairs t.items ++ "}"
+  | .str s => s!"S {s.alloc.name} len={s.s.length} \"{String.ofList s.s}\""
+  | .rng r => s!"G {r.start} {r.stop} {r.step} val={r.scratch}"
+  | .slc s => s!"C {s.base} {s.rng.start} {s.rng.stop} {s.rng.step} val={s.rng.scratch}"
+  | .zip z => s!"Z {z.a} {z.b}"
+  | .scalar a v => s!"V {a.name} {showVal v}"
+
+def showRet : Ret → String
+  | .unit => "ok"
+  | .val v => "ok:" ++ showVal v
+  | .bool b => if b then "ok:true" else "ok:false"
+  | .nat n => s!"ok:{n}"
+  | .vals vs => "ok:(" ++ showVals vs ++ ")"
+  | .name s => "ok:" ++ s
+
+def showRes : Res → String
+  | .ok r => showRet r
+  | .raised e => "raised:" ++ e.name
+  | .ub => "ub"
+
+/-! #### interpreter state -/
+
+structure St where
+  store : Store := []
+  dead : List Nat := []          -- objects left in a state the histories do not continue from (known findings)
+  nops : Nat := 0
+  nraised : Nat := 0
+
+def isSeqObj : Obj → Bool
+  | .arr _ => true | .lst _ => true | .tup _ => true | _ => false
+
+def seqItems : Obj → List Val
+  | .arr a => a.items | .lst l => l.items | .tup t => t.items | _ => []
+
+def valHasTy (ty : Ty) (v : Val) : Bool := v.ty? = some ty
+
+/-- `new …` → the object, or none when the line is not an admissible construction -/
+def mkObj (σ : Store) (kind : String) (args : List String) : Option Obj :=
+  match kind, args with
+  | "arr", ty :: vs => do
+    let ty ← parseTy ty; let vs ← parseVals vs
+    if vs.all (valHasTy ty) && vs.length ≤ 200 then some (.arr { ty := ty, items := vs, nslots := vs.length }) else none
+  | "lst", ty :: vs => do
+    let ty ← parseTy ty; let vs ← parseVals vs
+    if vs.all (valHasTy ty) && vs.length ≤ 200 then some (.lst { ty := ty, items := vs }) else none
+  | "tup", al :: vs => do
+    let al ← parseAlloc al; let vs ← parseVals vs
+    if vs.all (fun v => v ≠ .null) && al ≠ .static && vs.length ≤ 200 then some (.tup { alloc := al, items := vs }) else none
+  | "tab", k :: v :: ps => do
+    let k ← parseTy k; let v ← parseTy v; let ps ← parsePairs ps
+    if k ≠ .plain && v ≠ .plain && ps.length ≤ 100 && ps.all (fun p => valHasTy k p.1 && valHasTy v p.2) then
+      let items := ps.foldl (fun acc p => assocSet acc p.1 p.2) []
+      some (.tab { kty := k, vty := v, items := items, nslots := idealSize ps.length })
+    else none
+  | "tre", k :: v :: ps => do
+    let k ← parseTy k; let v ← parseTy v; let ps ← parsePairs ps
+    if k ≠ .plain && v ≠ .plain && ps.length ≤ 100 && ps.all (fun p => valHasTy k p.1 && valHasTy v p.2) then
+      some (.tre { kty := k, vty := v, items := ps.foldl (fun acc p => assocSet acc p.1 p.2) [] })
+    else none
+  | "str", [al, t] => do
+    let al ← parseAlloc al
+    match parseVal t with
+    | some (.str s) => some (.str { alloc := al, s := s })
+    | _ => none
+  | "rng", [a, b, c] => do
+    let a ← parseInt a; let b ← parseInt b; let c ← parseInt c
+    let small := fun (x : Int) => decide (-1000000 ≤ x) && decide (x ≤ 1000000)
+    if small a && small b && small c then some (.rng { start := a, stop := b, step := c, scratch := 0 }) else none
+  | "slc", [base, a, b, c] => do
+    let base ← parseId base; let a ← parseInt a; let b ← parseInt b; let c ← parseInt c
+    let small := fun (x : Int) => decide (-1000000 ≤ x) && decide (x ≤ 1000000)
+    let o ← σ.get? base
+    if isSeqObj o && small a && small b && small c then some (.slc (Slc.make base (seqItems o).length a b c)) else none
+  | "zip", [a, b] => do
+    let a ← parseId a; let b ← parseId b
+    let oa ← σ.get? a; let ob ← σ.get? b
+    if isSeqObj oa && isSeqObj ob then some (.zip { a := a, b := b }) else none
+  | "val", [al, v] => do
+    let al ← parseAlloc al; let v ← parseVal v
+    match v with
+    | .int _ => some (.scalar al v)
+    | .plain _ => some (.scalar al v)
+    | _ => none
+  | _, _ => none
+
+def parseOp (σ : Store) (name : String) (args : List String) : Option Op :=
+  match name, args with
+  | "get", [k] => (parseVal k).map .get
+  | "set", [k, v] => do let k ← parseVal k; let v ← parseVal v; pure (.set k v)
+  | "mem", [v] => (parseVal v).map .mem
+  | "rem", [v] => (parseVal v).map .rem
+  | "push", [v] => (parseVal v).map .push
+  | "pushat", [v, k] => do let v ← parseVal v; let k ← parseVal k; pure (.pushAt v k)
+  | "pop", [] => some .pop
+  | "popat", [k] => (parseVal k).map .popAt
+  | "resize", [n] => n.toNat?.bind (fun n => if n ≤ 64 then some (.resize n) else none)
+  | "len", [] => some .len
+  | "append", [v] => (parseVal v).map .append
+  | "assign", [v] => (parseVal v).map .assign
+  | "concat", [s] =>
+    match parseId s with
+    | some sid => (σ.get? sid).bind (fun o => if isSeqObj o then some (.concat (.seq (seqItems o))) else none)
+    | none => (parseVal s).map (fun v => .concat (.scalar v))
+  | "print", pos :: rest =>
+    match rest.span (· ≠ "|") with
+    | (fmt, "|" :: as) => do
+      let pos ← pos.toNat?
+      let fmt ← parseFmt fmt
+      let as ← parseVals as
+      if pos ≤ 64 && as.all (fun v => match v with | .plain _ => false | _ => true) then some (.print pos fmt as) else none
+    | _ => none
+  | _, _ => none
+
+/-- ops the histories exclude because the model does not describe what follows (the harness applies the same rules) -/
+def excluded (o : Obj) (op : Op) : Bool :=
+  match o, op with
+  | .str s, .print pos _ _ => pos > s.s.length
+  | _, .print _ (.lit _ :: _) _ => false
+  | _, .print _ [] _ => false
+  | _, .print _ _ _ => true                       -- a directive first, into a sink that is not a String
+  | .slc _, .mem _ => true
+  | .zip _, .mem _ => true
+  | .lst l, .resize n => l.ty = .str && n > l.items.length   -- would create String slots with a NULL buffer
+  | o, .concat (.seq vs) => (seqItems o).length + vs.length > 200    -- the histories keep containers small
+  | .tab t, .set _ _ => t.items.length ≥ 300
+  | .tre t, .set _ _ => t.items.length ≥ 300
+  | o, .push _ => (seqItems o).length ≥ 300
+  | o, .append _ => (seqItems o).length ≥ 300
+  | o, .pushAt _ _ => (seqItems o).length ≥ 300
+  | _, _ => false
+
+/-- after this op the object is not used any more -/
+def poisons (o : Obj) (op : Op) (r : Res) : Bool :=
+  match o, op with
+  | .arr _, .assign _ => true
+  | .lst _, .assign _ => true
+  | .tab _, .assign _ => true
+  | .tre _, .assign _ => true
+  | .arr a, .push _ => a.ty = .str && !r.isOk
+  | .arr a, .append _ => a.ty = .str && !r.isOk
+  | .arr a, .pushAt _ _ => a.ty = .str && !r.isOk
+  | .arr _, .concat _ => !r.isOk
+  | _, _ => false
+
+def knownTypes : List String :=
+  ["Int", "String", "Array", "List", "Tuple", "Table", "Tree", "Range", "Slice", "Zip", "Plain", "Float"]
+
+/-- the objects a view is built over must still be live sequences -/
+def basesOk (st : St) (o : Obj) : Bool :=
+  let okId := fun (b : Nat) => !st.dead.contains b && (match st.store.get? b with | some x => isSeqObj x | none => false)
+  match o with
+  | .slc s => okId s.base
+  | .zip z => okId z.a && okId z.b
+  | _ => true
+
+def line (st : St) (l : String) : St × String :=
+  let bad := (st, "O bad-op")
+  match Driver.words l with
+  | "new" :: id :: kind :: args =>
+    match parseId id with
+    | none => bad
+    | some id =>
+      if (st.store.get? id).isSome then bad else      -- ids are never reused
+      match mkObj st.store kind args with
+      | none => bad
+      | some o => if basesOk st o then ({ st with store := st.store.put id o }, "O new | " ++ dump o) else bad
+  | name :: "N" :: args =>
+    -- a method call on the NULL object: the arguments must be well formed, the outcome does not depend on them
+    let argsOk :=
+      if name = "typeof" || name = "dealloc" then args.isEmpty
+      else if name = "cast" then args.length = 1 && knownTypes.contains (args.headD "")
+      else if name = "print" then false
+      else if name = "concat" then (match args with | [s] => (parseId s).isNone && (parseVal s).isSome | _ => false)
+      else (parseOp [] name args).isSome
+    if argsOk then ({ st with nops := st.nops + 1, nraised := st.nraised + 1 }, "O " ++ showRes nullCall ++ " | -") else bad
+  | name :: id :: args =>
+    match parseId id with
+    | none => bad
+    | some id =>
+      if st.dead.contains id then bad else
+      match st.store.get? id with
+      | none => bad
+      | some o =>
+        if !basesOk st o then bad else
+        -- operations that are not class methods
+        if name = "typeof" then
+          if args.isEmpty then ({ st with nops := st.nops + 1 }, "O ok:" ++ o.typeName ++ " | " ++ dump o) else bad
+        else if name = "cast" then
+          if args.length = 1 && knownTypes.contains (args.headD "") then
+            let r := castObj o (args.headD "")
+            ({ st with nops := st.nops + 1, nraised := st.nraised + (if r.isOk then 0 else 1) }, "O " ++ showRes r ++ " | " ++ dump o)
+          else bad
+        else if name = "dealloc" then
+          if !args.isEmpty || o.allocK = .heap then bad
+          else ({ st with nops := st.nops + 1, nraised := st.nraised + 1 }, "O " ++ showRes (deallocObj o.allocK) ++ " | " ++ dump o)
+        else if name = "deallocelem" then
+          match args with
+          | [i] =>
+            (match i.toNat?, o with
+             | some i, .arr a => if i < a.items.length then
+                 ({ st with nops := st.nops + 1, nraised := st.nraised + 1 }, "O " ++ showRes (deallocObj .data) ++ " | " ++ dump o) else bad
+             | some i, .lst l => if i < l.items.length then
+                 ({ st with nops := st.nops + 1, nraised := st.nraised + 1 }, "O " ++ showRes (deallocObj .data) ++ " | " ++ dump o) else bad
+             | _, _ => bad)
+          | _ => bad
+        else
+        -- concat from an object: the source must be another live sequence
+        let srcOk := match name, args with
+          | "concat", [s] =>
+            (match parseId s with
+             | some sid =>
+               -- a Tuple copies the *pointers* of the source's items: only another Tuple (whose items are objects of their own)
+               sid ≠ id && !st.dead.contains sid &&
+                 (match o, st.store.get? sid with | .tup _, some (.tup _) => true | .tup _, _ => false | _, _ => true)
+             | none => true)
+          | _, _ => true
+        if !srcOk then bad else
+        match parseOp st.store name args with
+        | none => bad
+        | some op =>
+          if excluded o op then bad else
+          let (σ', r) := step st.store id op
+          let o' := (σ'.get? id).getD o
+          let dies := poisons o op r
+          ({ st with store := σ', nops := st.nops + 1, nraised := st.nraised + (match r with | .raised _ => 1 | _ => 0),
+                     dead := if dies then id :: st.dead else st.dead },
+           "O " ++ showRes r ++ " | " ++ (if dies then "dead" else dump o'))
+  | _ => bad
+
+end FailDrv
+
+def main (args : List String) : IO Unit := do
+  let lines ← Driver.inputLines args
+  let mut st : FailDrv.St := {}
+  for l in lines do
+    if Driver.isSkippable l then continue
+    let (st', out) := FailDrv.line st l
+    st := st'
+    IO.println out
+  IO.println s!"S ops={st.nops} raised={st.nraised}"
